@@ -215,6 +215,12 @@ def family(tier):
         cat(("let", ["A"], pa), ("paren", [], ("infix", cat(("let", ["A"], pb), A), "==", A))), cat(("let", ["A"], pa), ("paren", [], ("infix", cat(("let", ["A"], pb), A), "!=", A))),
         ("infix", ("paren", [], cat(("let", ["A"], pa), A)), "==", A), ("infix", cat(("let", ["A"], pa), A), "!=", cat(("let", ["A"], pb), A)), ("infix", A, "==", cat(("let", ["A"], pa), A)),
         cat(pa, ("infix", ("let", ["A"], cat()), "==", ("let", ["A"], cat()))))
+    # empty operands in every position: the empty program is a program (it passes its input on)
+    e = cat()
+    add("E11:empty", e, orl(e, pa), orl(pa, e), orl(e, e), orl(pa, e, pb), alt(e, pa), alt(pa, e), alt(e, e), ("paren", [], e), cat(pa, ("paren", [], orl(pa, e)), pb), ("cap", [], orl(e, pa)),
+        ("?(", [], e), ("!(", [], e), ("?(", [], orl(e, fail)), ("block", [], e), cat(pa, ("block", [], orl(e, pb)), W("apply")), ("if", ("paren", [], orl(pa, e)), ("paren", [], e), ("paren", [], alt(e, pb))),
+        ("let", ["A"], e), cat(("let", ["A"], orl(e, pa)), A), ("str", [orl(pa, e)]), cat(pa, ("str", [orl(e, pb), "-", alt(e, e)])), ("infix", e, "==", e), cat(pa, ("infix", orl(e, pb), "==", e)),
+        cat(pa, ("star", ("paren", [], orl(e, fail)))), cat(pa, ("opt", ("paren", [], e))), ("colon", "pa", ("paren", [], e)), cat(pa, pb, ("paren", ["A"], orl(e, A))))
     # literals
     add("E11:literals", ("int", "7"), cat(("int", "0"), ("int", "10"), ("int", "0x10"), ("int", "0X1f"), ("int", "0o17"), ("int", "017"), ("int", "0b101"), ("int", "0B11")), ("int", "-3"), ("int", "-0x10"),
         cat(("int", "1"), W("inc2")), cat(("int", "18446744073709551615")), cat(pa, ("int", "5"), ("int", "6"), drop),
@@ -265,6 +271,8 @@ def _e11(prog, tier="quick", groups=None):
                     E.ev.steps = 0
                     E.ev.call(simp[0], tree, [])
                     front = None
+                except lalr.FrontEndCrash as x:
+                    front = ("memory", str(x))
                 except lalr.ParseError as x:
                     front = ("error",)
                 except OutOfBounds as x:
